@@ -20,7 +20,6 @@ import (
 
 	"github.com/metal-toolbox/audito-maldito/ingesters/auditlog"
 	"github.com/metal-toolbox/audito-maldito/ingesters/namedpipe"
-	"github.com/metal-toolbox/audito-maldito/ingesters/syslog"
 	"github.com/metal-toolbox/audito-maldito/internal/common"
 	"github.com/metal-toolbox/audito-maldito/internal/health"
 	"github.com/metal-toolbox/audito-maldito/internal/metrics"
@@ -139,7 +138,22 @@ var c13Scenarios = []struct{ name, variant string }{
 	{"open-wait", "pipe-replaced"}, // the FIFO is renamed away and a new one created at its path before the cancellation
 	{"idle-read", "writer-silent"},
 	{"idle-read", "writer-silent-debug"},
-	{"logins-handoff", "unbuffered-unread"},
+	{"logins-handoff", "unbuffered-unread"}, // = same-ctx/password
+	{"logins-handoff", "same-ctx/publickey"},
+	{"logins-handoff", "same-ctx/publickey-padded"},
+	{"logins-handoff", "same-ctx/certificate"},
+	{"logins-handoff", "same-ctx/publickey/fifo"},
+	// the processor is built once on a long-lived context (as a daemon builds its collaborators); the worker runs on a
+	// context of its own, derived from it, and only that one is cancelled (a sibling failed, the process lives on)
+	{"logins-handoff", "child-ctx/password"},
+	{"logins-handoff", "child-ctx/publickey"},
+	{"logins-handoff", "child-ctx/publickey-padded"},
+	{"logins-handoff", "child-ctx/certificate"},
+	{"logins-handoff", "child-ctx/certificate/debug"},
+	{"logins-handoff", "child-ctx/password/fifo"},
+	{"logins-handoff", "child-ctx/certificate/fifo"},
+	{"logins-handoff", "child-ctx/password/cancelled-before-call"},
+	{"logins-handoff", "child-ctx/certificate/cancelled-before-call"},
 	{"backpressure", "cap0"},
 	{"backpressure", "cap1"},
 	{"backpressure", "cap16"},
@@ -156,10 +170,44 @@ func runC13(sum *hutil.Summary, tmp string, busyReps int, seed uint64) {
 			reps = busyReps
 		}
 		for i := 0; i < reps; i++ {
-			record(sum, runC13Scenario(tmp, sc.name, sc.variant, i))
+			r := runC13ScenarioRetry(tmp, sc.name, sc.variant, i)
+			record(sum, r)
+			if r.FailKey != "" && !r.Returned {
+				break // a worker that stays blocked costs the whole bound; once per state is enough
+			}
+		}
+	}
+	// the assembled binary: a sibling worker fails while the sshd worker hands logins over (racy: repeated)
+	reps := siblingReps(busyReps)
+	for _, v := range siblingVariants {
+		for i := 0; i < reps; i++ {
+			r := runC13ScenarioRetry(tmp, "sibling-failure", v, i)
+			record(sum, r)
+			if r.FailKey != "" || r.HarnessErr != "" {
+				break // a daemon that stays up costs the whole bound; once is enough
+			}
 		}
 	}
 }
+
+// runC13ScenarioRetry: a scenario whose own set-up did not get there (a state not reached within the harness'
+// bounds on a loaded machine) says nothing about the code; it is tried once more before it is recorded.
+func runC13ScenarioRetry(tmp, name, variant string, rep int) result {
+	t := time.Now()
+	r := runC13Scenario(tmp, name, variant, rep)
+	if r.HarnessErr != "" {
+		c13Notes = append(c13Notes, fmt.Sprintf("%s/%s rep %d: set-up problem (%s), tried again", name, variant, rep, r.HarnessErr))
+		time.Sleep(200 * time.Millisecond)
+		r = runC13Scenario(tmp, name, variant, rep)
+	}
+	if d := time.Since(t); d > 3*time.Second {
+		c13Notes = append(c13Notes, fmt.Sprintf("%s/%s rep %d took %.1fs", name, variant, rep, d.Seconds()))
+	}
+	return r
+}
+
+// c13Notes: what a reader of the summary should know about this run's timing (slow scenarios, retried set-ups).
+var c13Notes []string
 
 func runC13Scenario(tmp, name, variant string, rep int) result {
 	r := result{Prop: "C13", Scenario: name, Variant: variant, Rep: rep}
@@ -175,7 +223,9 @@ func runC13Scenario(tmp, name, variant string, rep int) result {
 	case "idle-read":
 		scIdleRead(&r, dir, variant)
 	case "logins-handoff":
-		scLoginsHandoff(&r)
+		scLoginsHandoff(&r, dir, variant)
+	case "sibling-failure":
+		scSiblingFailure(&r, tmp, dir, variant)
 	case "backpressure":
 		c, err := strconv.Atoi(variant[len("cap"):])
 		if err != nil {
@@ -270,43 +320,7 @@ func scIdleRead(r *result, dir, variant string) {
 	}
 }
 
-// (c) SyslogIngester.Process -> sshd processor blocked handing a login to a correlator that is not ready.
-func scLoginsHandoff(r *result) {
-	logins := make(chan common.RemoteUserLogin) // unbuffered, nobody receives
-	enc := newCountingEncoder()
-	ctx, cancel := context.WithCancel(context.Background())
-	defer cancel()
-	proc := sshd.NewSshdProcessor(ctx, logins, "node", "mid", auditevent.NewAuditEventWriter(enc), metricsProvider())
-	sli := syslog.NewSyslogIngester("unused", proc, namedpipe.NewNamedPipeIngester(zap.NewNop().Sugar(), health.NewHealth()))
-	done := make(chan error, 1)
-	go func() {
-		done <- sli.Process(ctx, "4242 Accepted password for alice from 192.0.2.7 port 50022 ssh2")
-	}()
-	select {
-	case <-enc.first: // the login event is written; the next thing the handler does is the hand-off
-	case err := <-done:
-		r.HarnessErr = fmt.Sprintf("Process returned (%v) before reaching the hand-off", err)
-		return
-	case <-time.After(c13Setup):
-		r.HarnessErr = "the login event was not written"
-		cancel()
-		return
-	}
-	r.Before = int(enc.n.Load())
-	time.Sleep(c13Settle)
-	if cancelAndWait(r, cancel, done) {
-		n := 0
-		select {
-		case <-logins:
-			n = 1
-		case <-time.After(c13After):
-		}
-		after(r, n)
-	} else {
-		<-logins // release
-		<-done
-	}
-}
+// (c) the sshd side blocked handing a login to a correlator that is not ready: see c13_handoff.go
 
 const auditLineFmt = "type=USER_CMD msg=audit(1690000000.000:%d): pid=5000 uid=1000 auid=1000 ses=%d msg='cwd=\"/home/someuser\" cmd=6C73 exe=\"/usr/bin/sudo\" terminal=pts/3 res=success'\n"
 
